@@ -1,0 +1,72 @@
+//! Verification hook (only compiled with `--cfg mos_verif`): makes the iteration order of the hash maps / hash sets
+//! whose contents reach build output controllable from outside.
+//!
+//! `MOS_VERIF_HASHPERM=<seed>`: before a hooked collection is iterated it is rebuilt (a fresh `RandomState` every time)
+//! until its iteration order equals the order obtained by sorting the elements by `fnv(seed, site, debug(element))`;
+//! after `LIMIT` attempts (64 for more than 7 elements) the last order tried is kept (best effort).  Without the variable nothing happens.
+use std::collections::{HashMap, HashSet};
+use std::fmt::Debug;
+use std::hash::Hash;
+
+const LIMIT: usize = 3000;
+
+fn seed() -> Option<u64> {
+    std::env::var("MOS_VERIF_HASHPERM").ok().and_then(|s| s.parse().ok())
+}
+
+fn fnv(seed: u64, site: &str, item: &str) -> u64 {
+    let mut h: u64 = 0xcbf29ce484222325 ^ seed.wrapping_mul(0x9E3779B97F4A7C15);
+    for b in site.bytes().chain([0u8]).chain(item.bytes()) {
+        h ^= b as u64;
+        h = h.wrapping_mul(0x100000001b3);
+    }
+    h ^ (h >> 29)
+}
+
+fn inversions(order: &[u64]) -> usize {
+    let mut n = 0;
+    for i in 0..order.len() {
+        for j in i + 1..order.len() {
+            if order[i] > order[j] {
+                n += 1;
+            }
+        }
+    }
+    n
+}
+
+pub fn reseat_set<T: Eq + Hash + Debug>(site: &str, set: HashSet<T>) -> HashSet<T> {
+    let seed = match seed() {
+        Some(s) if set.len() > 1 => s,
+        _ => return set,
+    };
+    let rank = |t: &T| fnv(seed, site, &format!("{:?}", t));
+    let limit = if set.len() > 7 { 64 } else { LIMIT };
+    let mut cand = set;
+    for _ in 0..limit {
+        if inversions(&cand.iter().map(rank).collect::<Vec<_>>()) == 0 {
+            break;
+        }
+        let items: Vec<T> = cand.into_iter().collect();
+        cand = items.into_iter().collect();
+    }
+    cand
+}
+
+pub fn reseat_map<K: Eq + Hash + Debug, V>(site: &str, map: HashMap<K, V>) -> HashMap<K, V> {
+    let seed = match seed() {
+        Some(s) if map.len() > 1 => s,
+        _ => return map,
+    };
+    let rank = |k: &K| fnv(seed, site, &format!("{:?}", k));
+    let limit = if map.len() > 7 { 64 } else { LIMIT };
+    let mut cand = map;
+    for _ in 0..limit {
+        if inversions(&cand.keys().map(rank).collect::<Vec<_>>()) == 0 {
+            break;
+        }
+        let items: Vec<(K, V)> = cand.into_iter().collect();
+        cand = items.into_iter().collect();
+    }
+    cand
+}
